@@ -19,7 +19,7 @@ META = {
     'functions': ['rockit/direct_collocation.py:DirectCollocation.add_variables/add_constraints', 'rockit/stage.py:Stage._ode/sample/_grid_integrator_roots',
                   'rockit/sampling_method.py:eval_at_integrator/eval_at_integrator_root/get_p_sys'],
     'bounds': 'degree 1..5 x {radau, legendre}; quick N<=3, M<=2; thorough N<=4, M<=3; ODE and semi-explicit DAE nz<=2; all real values of the '
-              'decision vector, parameters, t0, T; right-hand sides with uninterpreted markers',
+              'decision vector, parameters, t0, T; right-hand sides with uninterpreted markers; structural obligation: the state / algebraic value rockit reports at each collocation point is an NLP variable of its own (pairwise distinct)',
     'outside': 'numeric horizon with irrational tables (degree>=3 radau, >=2 legendre): CasADi folds table/dt into new doubles, so those degrees '
                'are checked with symbolic (free/parametric) horizon only; irrational partitions (global geometric grid) together with irrational tables (a product of two irrational doubles is folded by CasADi); B-spline signals; IEEE rounding',
     'assumptions': ['reals for floats; constants identified up to 1e-10 relative (Lagrange tables are exact rationals of the tau doubles)',
@@ -126,6 +126,24 @@ def run(item):
         if not ok and ch.violations:
             v = ch.violations.pop()
             V('root-time', v['label'], 'sampled collocation time differs from t_start + tau_j*h: %s' % v, inst.pts[v['point']] if v.get('point') is not None else v.get('model'))
+    # the state and the algebraic value at every collocation point are unknowns of their own: the reference rows above are written over the
+    # quantities rockit itself reports at the roots, so one NLP variable reported (and used) at two different points would go unnoticed there
+    for nm, cols in (('state', trz.Xr), ('algebraic', trz.Zr if spec.nz else [])):
+        seen = {}
+        for n_, col in enumerate(cols):
+            for i_, e_ in enumerate(col):
+                vs_ = ch._vars(e_)
+                ch.stats['queries'] += 1
+                if len(vs_) != 1:
+                    V('root-unknown:%s' % nm, '%s[%d][%d]' % (nm, n_, i_), 'quantity at collocation point %d depends on %d NLP variables (expected: a variable of its own, possibly scaled)' % (n_, len(vs_)))
+                    continue
+                v_ = next(iter(vs_))
+                if v_ in seen:
+                    V('root-unknown:%s' % nm, '%s[%d][%d]' % (nm, n_, i_), 'collocation points %d and %d share the NLP variable %s: the %s value at distinct collocation points must be distinct unknowns' % (seen[v_], n_, v_, nm))
+                else:
+                    seen[v_] = n_
+        if cols:
+            ch.proved.append('%s values at the %d collocation points are distinct NLP variables' % (nm, len(cols)))
     # twin: reference with the root time of the previous collocation point must be told apart
     twins_ok = twins_bad = 0
     from .c01 import time_dependent
